@@ -40,13 +40,13 @@ def run(R):
     run_layout(R, tonic)
 
 
-def run_codec_tables(R, tonic, tag=''):
+def run_codec_tables(R, tonic, tag='', rule='C01.R3'):
     comp = spec('compression')['encodings']
     feats = set(tonic.features)
     enabled = {v: e for v, e in comp.items() if e['feature'] in feats}
     # ---------------------------------------------------------------- R3 codec pairing
-    R.describe('C01.R3', 'compress/decompress: each CompressionEncoding arm uses the codec family of spec/compression.json, the two directions are the declared inverse pair, both read buf[0..len] and advance(len) exactly once on the success path only')
-    with R.guard('C01.R3'):
+    R.describe(rule, 'compress/decompress: each CompressionEncoding arm uses the codec family of spec/compression.json, the two directions are the declared inverse pair, both read buf[0..len] and advance(len) exactly once on the success path only')
+    with R.guard(rule):
         variants = {v['discr']: v['name'] for v in tonic.adt('codec::compression::CompressionEncoding')['variants']}
         tables = {}
         for fname, role in (('compression::compress', 'compress'), ('compression::decompress', 'decompress')):
@@ -71,7 +71,7 @@ def run_codec_tables(R, tonic, tag=''):
                 news = table.get(name, [])
                 fams = [short(t['fn']) for bb, t in news if 'Compression::new' not in t['fn']]
                 want = e[role]
-                R.check(len(fams) == 1 and re.search(want + '::new$', fams[0]) is not None, 'C01.R3', '%s:%s%s' % (role, name, tag), site(b, news[0][0]) if news else site(b), '%s arm %s constructs %r; spec family %r' % (role, name, fams, want))
+                R.check(len(fams) == 1 and re.search(want + '::new$', fams[0]) is not None, rule, '%s:%s%s' % (role, name, tag), site(b, news[0][0]) if news else site(b), '%s arm %s constructs %r; spec family %r' % (role, name, fams, want))
                 for bb, t in news:
                     if 'Compression::new' in t['fn']:
                         continue
@@ -81,23 +81,23 @@ def run_codec_tables(R, tonic, tag=''):
                     if ix:
                         rng = strip_refs(ix[0][2][1])
                         okr = rng[0] == 'agg' and rng[1].get('adt', '').endswith('Range') and const_val(rng[2][0]) == 0 and show(rng[2][1]).startswith('arg4') and show(ix[0][2][0]).find('arg2') >= 0
-                    R.check(okr, 'C01.R3', '%s:%s:reads-0..len%s' % (role, name, tag), site(b, bb), 'codec input = %s' % show(src)[:140])
-            R.eq(sorted(table), sorted(enabled), 'C01.R3', '%s:arms%s' % (role, tag), site(b), 'arms of %s under features %s' % (fname, sorted(feats & {'gzip', 'deflate', 'zstd'})))
+                    R.check(okr, rule, '%s:%s:reads-0..len%s' % (role, name, tag), site(b, bb), 'codec input = %s' % show(src)[:140])
+            R.eq(sorted(table), sorted(enabled), rule, '%s:arms%s' % (role, tag), site(b), 'arms of %s under features %s' % (fname, sorted(feats & {'gzip', 'deflate', 'zstd'})))
             # advance(len) exactly once, on the success path only
             adv = b.calls(name='advance')
-            R.check(len(adv) == (1 if enabled else len(adv)), 'C01.R3', '%s:advance-once%s' % (role, tag), site(b), 'advance sites: %d' % len(adv))
+            R.check(len(adv) == (1 if enabled else len(adv)), rule, '%s:advance-once%s' % (role, tag), site(b), 'advance sites: %d' % len(adv))
             oks = [bb for bb, i, p, a, ops in mirlib.aggregates(b, 'result::Result', 'Ok') if p['l'] == 0]
             errs = [bb for bb, t in b.calls(name='from_residual')]
             for ab, at in adv:
-                R.check('arg2' in show(b.origin(at['args'][0])) and show(b.origin(at['args'][1])).startswith('arg4'), 'C01.R3', '%s:advance-args%s' % (role, tag), site(b, ab), 'advance(%s, %s)' % (show(b.origin(at['args'][0])), show(b.origin(at['args'][1]))))
+                R.check('arg2' in show(b.origin(at['args'][0])) and show(b.origin(at['args'][1])).startswith('arg4'), rule, '%s:advance-args%s' % (role, tag), site(b, ab), 'advance(%s, %s)' % (show(b.origin(at['args'][0])), show(b.origin(at['args'][1]))))
                 for ob in oks:
-                    R.check(b.dominates(ab, ob), 'C01.R3', '%s:advance-before-ok%s' % (role, tag), site(b, ob), 'advance dominates the Ok return')
+                    R.check(b.dominates(ab, ob), rule, '%s:advance-before-ok%s' % (role, tag), site(b, ob), 'advance dominates the Ok return')
                 for eb in errs:
-                    R.check(ab not in b.reachable(eb) and not b.dominates(ab, eb), 'C01.R3', '%s:no-advance-on-error%s' % (role, tag), site(b, eb), 'error return is not preceded by advance')
+                    R.check(ab not in b.reachable(eb) and not b.dominates(ab, eb), rule, '%s:no-advance-on-error%s' % (role, tag), site(b, eb), 'error return is not preceded by advance')
             if enabled:
-                R.floor('C01.R3', '%s Ok returns%s' % (role, tag), len(oks), 1)
-        R.floor('C01.R3', 'compress rows' + tag, len(tables.get('compress', {})), len(enabled))
-        R.floor('C01.R3', 'decompress rows' + tag, len(tables.get('decompress', {})), len(enabled))
+                R.floor(rule, '%s Ok returns%s' % (role, tag), len(oks), 1)
+        R.floor(rule, 'compress rows' + tag, len(tables.get('compress', {})), len(enabled))
+        R.floor(rule, 'decompress rows' + tag, len(tables.get('decompress', {})), len(enabled))
 
 
 def run_layout(R, tonic):
@@ -219,6 +219,24 @@ def run_layout(R, tonic):
             for bd in tonic.by_path[p]:
                 bad = [t['name'] for bb, t in bd.calls() if t.get('name') in ('split_to', 'split', 'split_off', 'freeze') and 'Bytes' in (t.get('fn') or '')]
                 R.check(not bad, 'C01.R5', 'no-split-in:%s' % short(bd.path), site(bd), 'buffer-splitting calls: %r' % bad)
+        # R5c: an item taken from the source is always handed to encode_item (no return in between drops it)
+        eb, et = pn.call1(name='encode_item')
+        item_src = pn.origin(et['args'][6])
+        ok_item = term_contains(item_src, lambda x: x and x[0] == 'variant' and x[2] == 'Ok') and term_contains(item_src, lambda x: is_call(x, name='poll_next'))
+        R.check(ok_item, 'C01.R5', 'R5c:item-is-the-polled-item', site(pn, eb), 'encode_item item = %s' % show(item_src)[:120])
+        sp_b, sp_t = pn.call1(pat='Stream::poll_next')
+        arm = [x for x in sorted(pn.live_blocks()) if any(s_ == sw_ and vals == [0] for s_, vals, tm in pn.edge_guards(x) for sw_ in [s_] if show(tm).startswith('discr(') and 'as Some' in show(tm) and 'poll_next' in show(tm))]
+        # blocks on the Ok(item) arm: guarded by discr(Ready.0 Some.0) == Ok(0)
+        rets = set(pn.return_blocks())
+        arm_entry = [x for x in arm if not any(p_ in arm for p_ in pn.preds(x))]
+        dropped = []
+        for ent in arm_entry:
+            reach_wo = pn.reachable(ent, removed={eb})
+            if reach_wo & rets:
+                dropped.append(ent)
+        R.check(bool(arm_entry) and not dropped, 'C01.R5', 'R5c:no-item-dropped', site(pn, eb),
+                'every path from the Ok(item) arm (entries %r) to a return passes through encode_item: %r '
+                '(otherwise a message pulled from the source is lost, e.g. when the batch reaches the yield threshold)' % (arm_entry, not dropped))
         for kind in ('Pending', 'None'):
             for bb in writers_of(pn, 0):
                 for w in block_writes(pn, bb, 0):
